@@ -126,7 +126,8 @@ structure St where
   lastEx : Nat := 0              -- rearrangement: one past the last marked glyph
   markSet : Bool := false
   mark : Nat := 0
-  stack : List Nat := []         -- ligature component stack, top first
+  stack : List Nat := []         -- ligature component stack, top first: the newest `ligStackKept` components
+  lost : Nat := 0                -- number of older components below them that are no longer remembered
   deriving Repr
 
 def St.len (s : St) : Nat := s.xs.size
@@ -200,6 +201,17 @@ def ligOffsetOf (action : Nat) : Int :=
   let o := action &&& ligOffset
   if o &&& 0x20000000 != 0 then (o : Int) - 2 ^ 30 else o
 
+/-- [conv] The manual gives the component stack no depth limit. HarfBuzz and rustybuzz remember the newest 64
+    components (HB_MAX_CONTEXT_LENGTH); the stack itself may grow deeper (every ligature formed stays on it, and so
+    does every component that is pushed and never consumed — the depth grows over a whole line of text), but an
+    action list that pops a component older than the newest 64 is outside the domain. -/
+def ligStackKept : Nat := 64
+
+/-- push a component: the stack grows by one; only the newest `ligStackKept` positions are remembered -/
+def ligPushPos (s : St) (i : Nat) : St :=
+  if s.stack.length < ligStackKept then { s with stack := i :: s.stack }
+  else { s with stack := (i :: s.stack).take ligStackKept, lost := s.lost + 1 }
+
 /-- run the action list: pop a component, add its component-table value to the accumulator; on Store/Last
     the accumulated value selects the ligature, which replaces the popped glyph and is pushed back, while
     the glyphs popped before it become the deleted glyph. -/
@@ -208,7 +220,9 @@ def ligActions (actions components ligatures : Nat → Option Nat) :
   | 0, _, _, _, _ => none
   | fuel + 1, k, acc, pending, s =>
     match s.stack with
-    | [] => some { s with stack := [] }       -- [conv] stack underflow: stop
+    | [] =>
+      if s.lost != 0 then none                -- [conv] a component older than the newest 64: outside the domain
+      else some { s with stack := [] }        -- [conv] stack underflow: stop
     | p :: rest => do
       let action ← actions k
       let g ← s.xs[p]?
@@ -226,19 +240,21 @@ def ligActions (actions components ligatures : Nat → Option Nat) :
         else ligActions actions components ligatures fuel (k + 1) acc [p] { s with xs := xs, stack := rest }
       else ligActions actions components ligatures fuel (k + 1) acc (p :: pending) { s with stack := rest }
 
+/-- "setComponent: push this glyph onto the component stack" -/
+def ligPush (s : St) : Option St :=
+  match s.stack with
+  | p :: _ => some (if p == s.i then s else ligPushPos s s.i)   -- [conv] never push the same position twice (DontAdvance loops)
+  | [] => if s.lost != 0 then none else some (ligPushPos s s.i) -- (every remembered component popped, older ones below: outside the domain)
+
+/-- "performAction: use the ligActionIndex to process a ligature group" -/
+def ligPerform (actions components ligatures : Nat → Option Nat) (e : Entry) (s : St) : Option St :=
+  if s.stack.isEmpty then (if s.lost != 0 then none else some s)
+  else if s.i ≥ s.len then some s        -- [conv] no action at end of text
+  else ligActions actions components ligatures (s.stack.length + 1) e.x1 0 [] s
+
 def ligAct (actions components ligatures : Nat → Option Nat) (e : Entry) (s : St) : Option St := do
-  let s := if has e.flags fSetMark then
-      -- [conv] never push the same position twice (DontAdvance loops)
-      match s.stack with
-      | p :: rest => if p == s.i then { s with stack := s.i :: rest } else { s with stack := s.i :: p :: rest }
-      | [] => { s with stack := [s.i] }
-    else s
-  if s.stack.length > 64 then none
-  if has e.flags fPerformAction then
-    if s.stack.isEmpty then some s
-    else if s.i ≥ s.len then some s        -- [conv] no action at end of text
-    else ligActions actions components ligatures (s.stack.length + 1) e.x1 0 [] s
-  else some s
+  let s ← if has e.flags fSetMark then ligPush s else some s
+  if has e.flags fPerformAction then ligPerform actions components ligatures e s else some s
 
 /-! ### insertion -/
 
